@@ -39,8 +39,13 @@ def q(l):
     return ", ".join('"%s"' % x for x in l)
 
 
+RNG = [None]
+
+
 def line_text(toks):
-    return "".join(" " * t["g"] + t["t"] for t in toks)
+    """token text preceded by its blanks; a blank is a space or (seeded) a tab - one byte, one column either way"""
+    rng = RNG[0]
+    return "".join("".join(("\t" if (rng is not None and rng.random() < 0.25) else " ") for _ in range(t["g"])) + t["t"] for t in toks)
 
 
 def render(rec):
@@ -65,6 +70,7 @@ def render(rec):
 def run(ctx):
     quick = ctx.tier == "quick"
     known = load_known("C19")
+    RNG[0] = ctx.rng
     maxch = 2
     mc = ctx.tlc("Section", CFG % (maxch, q(FAULTS)), "mc-section", workers=NCPU, timeout=3000)
     out, ff = ctx.path("vec", "section.ndjson"), ctx.path("vec", "faults.ndjson")
@@ -140,6 +146,24 @@ def run(ctx):
     results = []
     for r in pmap(one, range(shards)):
         results += r
+    # the same patches through the command (its patch loader is a different entry point than patch.Parse)
+    import fam_run as frn
+    sample = ctx.rng.sample(vecs, min(len(vecs), 400 if quick else 4000))
+    scs = [dict(id=v["id"] + "|cli", files=[dict(path="x.go", content="package a\n\nfunc f() { foo(1) }\n"), dict(path="my.patch", content=v["text"])],
+                dirs=[], symlinks=[], args=["-p", "my.patch", "x.go"], stdin="", cwd="", strace=False, timeout_ms=20000) for v in sample]
+    clines = []
+    for v, r in zip(sample, frn.run_cli(ctx, scs, "c19")):
+        diags = [dict(file="my.patch", line=int(m.group(1)), col=int(m.group(2))) for m in re.finditer(r"my\.patch:(\d+):(\d+)", r["stderr"])]
+        untouched = r["content"].get("x.go") == "package a\n\nfunc f() { foo(1) }\n"
+        clines.append(dict(id=v["id"] + "|cli", changes=v["changes"], fault=v["fault"], file="my.patch",
+                           rejected="1" if (r["exit"] != 0 and not r["timeout"] and untouched) else "0", diags=diags, err=r["stderr"][:300]))
+    tf, of = ctx.path("c19", "trace-cli.ndjson"), ctx.path("c19", "verdicts-cli.ndjson")
+    write_ndjson(tf, [{k: v for k, v in l.items() if k != "err"} for l in clines])
+    ctx.tlc("TraceSection", CFG_TRACE % (q(FAULTS), tf, of), "trace-c19-cli", workers=1, timeout=3000)
+    cvs = read_ndjson(of)
+    if len(cvs) != len(clines):
+        raise Infra("TraceSection (cli): %d records, %d verdicts" % (len(clines), len(cvs)))
+    results += [(dict(v, id=v["id"] + "|cli", file="my.patch"), l, vv) for v, l, vv in zip(sample, clines, cvs)]
     kinds = {}
     for v, l, vv in results:
         kinds[v["fault"]["k"]] = kinds.get(v["fault"]["k"], 0) + 1
@@ -152,5 +176,5 @@ def run(ctx):
                samples=[dict(patch=r0[0]["text"], fault=r0[0]["fault"], expected=r0[2]["want"], error=r0[1]["err"])],
                evaluations=len(results), distinct_nontrivial=len({v["text"] for v, _, _ in results}), by_fault_kind=kinds,
                universe=total, exhaustive=False,
-               rule="Section.tla: patches of <=2 changes x 5 prefixes (comment/blank lines) x 3 header forms x 4 meta sections x 7 fault kinds at every change and meta line (TLC exhaustive: the sectioner's offset arithmetic = the offending token's position); replay: seeded sample (plus 3-change variants) parsed by the real patch.Parse under three patch file names; distinct = distinct patch texts")
+               rule="Section.tla: patches of <=2 changes x 5 prefixes (comment/blank lines) x 3 header forms x 4 meta sections x 7 fault kinds at every change and meta line (TLC exhaustive: the sectioner's offset arithmetic = the offending token's position); replay: seeded sample (plus 3-change variants) parsed by the real patch.Parse under three patch file names (blanks rendered as spaces or tabs), a sample also through the command's patch loader (-p); distinct = distinct patch texts")
     return ctx.finish("model_checking", cov, ASSUME)
